@@ -2,7 +2,8 @@ import time, vf
 from concurrent.futures import ThreadPoolExecutor
 PID = "C14"
 D = vf.VERIF + "/checks/C14/"
-STUB = [vf.VERIF + "/engine/sched/log_stub.cpp"]
+STUB = [vf.VERIF + "/engine/sched/log_stub.cpp"]     # completion executable: logging is not its subject
+LOGSTUB = [D + "log_fmt_stub.cpp"]                     # framing executables: every log record is really formatted (instrumented), written nowhere
 
 def main(tier, args):
     t0 = time.time()
@@ -17,8 +18,8 @@ def main(tier, args):
     # so shared inline/template code (nlohmann, TimeoutMonitor) resolves to the instrumented copies
     O0 = ["-fno-sanitize=all"]
     with ThreadPoolExecutor(3) as ex:
-        f1 = ex.submit(vf.build, "C14/frame_asan", [D + "frame_harness.cpp"], rpc_srcs, mode="asan", plain_srcs=STUB, harness_flags=O0)
-        f2 = ex.submit(vf.build, "C14/frame_opt", [D + "frame_harness.cpp"], frame_srcs + STUB, mode="opt")   # stub compiled with the opt flags: no cache-key clash with the concurrent build
+        f1 = ex.submit(vf.build, "C14/frame_asan", [D + "frame_harness.cpp"], rpc_srcs + LOGSTUB, mode="asan", harness_flags=O0)
+        f2 = ex.submit(vf.build, "C14/frame_opt", [D + "frame_harness.cpp"], frame_srcs + LOGSTUB, mode="opt")
         f3 = ex.submit(vf._compile_one, cc, vf.BASE_FLAGS + mflags + ["-fno-access-control"] + O0, D + "rpc_harness.cpp")   # pre-warm the cache
         frame, f3r = f1.result(), f3.result()
         rpc = vf.build("C14/rpc_asan", [D + "rpc_harness.cpp"], rpc_srcs, mode="asan", plain_srcs=STUB, harness_flags=O0)
@@ -28,16 +29,25 @@ def main(tier, args):
     jobs = []
     def fam(exe, tag, name, nparts, maxseg=0):
         for p in range(nparts):
-            jobs.append(("%s:%s:%d" % (tag, name, p), [exe, name, str(p), str(nparts), lvl, str(maxseg)]))
-    depth = 12 if thorough else 7     # thorough reaches the BFS fixpoint (depth 8-10) for every configuration
-    cfgs = [("raw", "epoll", 2), ("header", "epoll", 2), ("packet", "epoll", 2), ("raw", "select", 2),
-            ("raw", "epoll", 1), ("raw", "epoll", 3), ("raw", "epoll", 0)]
+            # ASan families: every odd partition (the only one of a single-partition family) runs its protos with setLogEnable(true)
+            log = "1" if (tag == "asan" and (p % 2 == 1 or nparts == 1)) else "0"
+            jobs.append(("%s:%s:%d" % (tag, name, p), [exe, name, str(p), str(nparts), lvl, str(maxseg), log]))
+    depth = 12 if thorough else 7     # thorough reaches the BFS fixpoint (depth 9-11) for every configuration
+    # (proto, engine, timeout_sec, optional ops: r = cleanup+initialize once, b = one request in the opposite direction)
+    # quick: op r on every configuration, op b on one (the product r x b - measured on raw/epoll/2: fixpoint at depth 9, 17636 states, 174546 transitions - is left to the thorough tier)
+    cfgs = [("raw", "epoll", 2, "b"), ("raw", "epoll", 2, "r"), ("header", "epoll", 2, "r"), ("packet", "epoll", 2, "r"), ("raw", "select", 2, "r"),
+            ("raw", "epoll", 1, "r"), ("raw", "epoll", 3, "r"), ("raw", "epoll", 0, "r")]
     if thorough:
-        cfgs += [("header", "select", 3), ("packet", "select", 1), ("header", "epoll", 0), ("packet", "select", 0)]
+        cfgs = [(p, e, t, "rb") for p, e, t, o in cfgs[1:]]
+        cfgs += [("header", "select", 3, "rb"), ("packet", "select", 1, "rb"), ("header", "epoll", 0, "rb"), ("packet", "select", 0, "rb")]
+    def rpc_jobs(cs):
+        for p, e, t, o in cs:
+            jobs.append(("rpc:%s:%s:t%d:%s" % (p, e, t, o), [rpc, p, e, str(t), str(depth), o]))
     # longest first
     if thorough:
-        for p, e, t in cfgs:
-            jobs.append(("rpc:%s:%s:t%d" % (p, e, t), [rpc, p, e, str(t), str(depth)]))
+        rpc_jobs(cfgs)
+    else:
+        rpc_jobs([c for c in cfgs if c[2] == 0 or c[3] == "b"])
     fam(frame, "asan", "roundtrip", 8 if thorough else 6)
     fam(frame, "asan", "trunc", 4)
     fam(frame, "asan", "segment", 8 if thorough else 4, 2)      # 2-segment splits + chunkings reach every distinct onRecvData window under ASan
@@ -45,10 +55,11 @@ def main(tier, args):
     fam(frame_opt, "opt", "segment", 8 if thorough else 4)      # the full <=3(4)-segment sweep runs on the -O2 build (40x faster)
     fam(frame_opt, "opt", "mixed", 8 if thorough else 4)
     if not thorough:
-        for p, e, t in cfgs:
-            jobs.append(("rpc:%s:%s:t%d" % (p, e, t), [rpc, p, e, str(t), str(depth)]))
+        rpc_jobs([c for c in cfgs if not (c[2] == 0 or c[3] == "b")])
+    jobs.append(("rpc:lane", [rpc, "lane"]))
+    fam(frame, "asan", "big", 6 if thorough else 2)
     fam(frame, "asan", "bytes", 4 if thorough else 2)
-    fam(frame, "asan", "envelope", 2)
+    fam(frame, "asan", "envelope", 4 if thorough else 3)
     fam(frame, "asan", "len", 2)
     fam(frame, "asan", "packet", 1)
     fam(frame, "asan", "magic", 1)
@@ -66,12 +77,25 @@ def main(tier, args):
                    "fed as a caller does (consume the returned count, re-present the rest), must give the unsegmented message sequence and consume everything; valid frame + every hostile string (len<=%s [-O2], len<=%s [ASan]) + valid frame: same message sequence; "
                    "PACKET [ASan]: every sequence of <=3 packets, one call each, decodes as each packet alone; "
                    "HOSTILE [ASan]: header length field in {0,1,n-1,n,n+1,n+6,2^31-1,2^31,2^32-7..2^32-1} x every truncation x {alone,followed by a frame}, all 65536 magic values, every proper prefix of ~2000 valid messages, "
-                   "every byte string of length<=%s over '{}[]\"\\,:1a ' in 5 presentations, 39000 JSON-RPC envelopes with hostile field types, each bare and inside a batch array; [-O2, 8 MiB stack] arrays nested 100..10^6 deep: "
-                   "no exception, no crash/sanitizer report, return value <= presented size, incomplete frame -> 0, non-JSON -> not consumed, no callback for non-messages. "
-                   "(H, completion) BFS depth %d over {request(plain | callback issues a follow-up), deliver result|error for any issued request (hence duplicate/late too), deliver future-id / id 1000 / id 0, advance 1 s + loop pass} "
-                   "on two real Rpc peers wired back-to-back on a real loop with a virtual monotonic clock; <=3 requests; timeout_sec in {1,2,3,default 30 (advance = 10 ticks)}; 3 protos; epoll+select; "
-                   "reference model = per-request ring countdown; oracle = callback exactly once, with the matching response if delivered before the ring wraps, else kRequestTimeout in exactly that tick; "
-                   "canonical state = id counter, pending-callback ids, both TimeoutMonitor rings + timer flags, peer's to-be-responded set, loop timer heap" % b,
+                   "every byte string of length<=%s over '{}[]\"\\,:1a ' in 5 presentations, 42000 JSON-RPC envelopes with hostile field types (id in {absent,1,\"1\",1.5,2^31-1,2^31,2^63,2^64-1,-2^63,-1,null,{},true,1e300}), each bare and inside a batch array; "
+                   "[-O2, 8 MiB stack] arrays nested 100..10^6 deep, well-formed (must be consumed whole) and with a mismatched innermost closer (must not be consumed): "
+                   "no exception, no crash/sanitizer report, return value <= presented size, incomplete frame -> 0, non-JSON -> not consumed, no callback for non-messages, an int-range integer id reaches the callback unchanged. "
+                   "PARTIALLY WIRED [ASan]: the envelopes with id absent/1/\"1\" are also fed to protos with no / only the request / only the response receive callback (what Rpc::cleanup() leaves behind): no exception, same return value as the fully wired proto, exactly its callbacks of the wired kind. "
+                   "BOUNDARY SIZES AND IDS [ASan]: ids {1,127,128,255,256,32767,32768,65535,65536,2^31-1,-1,-128,-129,-32768,-32769,-2^31} x {request,result,error with that code} x 3 protos round trip; "
+                   "string values sized so that the encoded frame content is exactly {255,256,257,65535,65536,65537,70000%s} bytes, ending in a / escaped quote / escaped backslash, as params and as result, 3 protos: round trip equal, "
+                   "followed by a small frame -> two messages and all consumed, and (stream framings) the same under 2-segment splits at every cut near 1..8, 254..263, 65535..65543, frame end-2..+7 and fixed chunk sizes {255,256,4096; 1 for frames <=400 bytes}. "
+                   "LOGGING: every odd ASan partition (and every single-partition family) runs its protos with setLogEnable(true)+setLogLabel; each log record is really formatted by an instrumented sink (checks/C14/log_fmt_stub.cpp). "
+                   "(H, completion) BFS depth %d over {request with behaviour in (plain: peer's service defers | completion callback issues a follow-up | peer's service answers synchronously with a result | ... with an error | unknown method (kMethodNotFound) | "
+                   "synchronous answer whose callback, running inside request(), issues a follow-up | two notify() overloads then the request(method, cb) overload), "
+                   "deliver result|error for any issued request (hence duplicate/late too), one op delivering responses with a future id, id 1000, id 0 (result and error) and id -1, advance 1 s + loop pass, "
+                   "[op r] Rpc::cleanup() + three deliveries into the now unwired proto + initialize() + addService, at most once, [op b] one request in the opposite direction (same numeric ids) and its answer} "
+                   "on two real Rpc peers wired back-to-back on a real loop with a virtual monotonic clock; <=3 requests A->B; timeout_sec in {1,2,3,default 30 (advance = 10 ticks)}; 3 protos; epoll+select; %s; "
+                   "reference model = per-request ring countdown per side; oracle = callback exactly once, with the matching response if delivered before the ring wraps (inside request() for a synchronous answer), else kRequestTimeout in exactly that tick; "
+                   "after cleanup+initialize: requests of the first session are never called back again and responses carrying their ids are ignored, requests of the second session complete like any other, timeouts included; "
+                   "canonical state = per side: id counter, pending-callback ids, to-be-responded set, both TimeoutMonitor rings + timer/callback flags, service count; loop timer heap; ids seen by each peer; model: pending countdowns, chaining flag, budget. "
+                   "LANE (deterministic, outside the BFS; 3 protos x 2 engines x timeout {1,2,3} x N in {2,20,60}): L1 N pending, the callback of the first response issues 15 follow-ups, the rest answered in reverse, all duplicated, late copies after the timeouts; "
+                   "L2 two staggered groups never answered: the first timeout callback makes the peer answer every other request re-entrantly and issues 15 follow-ups; L3 a chain of N synchronously answered requests each issued from the previous callback: "
+                   "every callback exactly once with its own result or its timeout in exactly its tick" % (b[:7] + (",2^24" if thorough else "", b[7], "every optional op on every configuration" if thorough else "op r on every configuration, op b (without r) on raw/epoll/timeout 2")),
               assumptions=["decoded values are observed through the public request/response callbacks, so test values travel as params/result of JSON-RPC envelopes (DESIGN 1.7)",
                            "for the packet framing the unit of segmentation is the packet (DESIGN 1.7)",
                            "on hostile streams only the decoded message sequence is compared between segmentations (a differing error/stall status is counted in hostile_status_diffs, not flagged)",
@@ -79,4 +103,8 @@ def main(tier, args):
                            "stack exhaustion is judged on the -O2 -DNDEBUG build with the default 8 MiB main-thread stack, not on the ASan build (inflated frames)",
                            "all clock movement is in whole seconds, so every advance while a TimeoutMonitor holds an id is exactly one ring tick",
                            "clock reads are interposed at clock_gettime/gettimeofday/time; epoll_wait/select are forced to zero timeout",
-                           "responses are delivered synchronously into the requester's onRecvData (as modules/jsonrpc/rpc_test.cpp wires its peers)"])
+                           "responses are delivered synchronously into the requester's onRecvData (as modules/jsonrpc/rpc_test.cpp wires its peers)",
+                           "Rpc::cleanup() abandons pending requests: the oracle accepts either silence (what the code does) or one error callback while cleanup() runs, and demands silence afterwards",
+                           "a response delivered from inside a timeout callback of the very tick in which its own request expires may be reported as either the response or the timeout (order within a tick is not promised), still exactly once",
+                           "a duplicate of a response delivered re-entrantly from inside that response's own completion callback is NOT explored by default (lane L4, switch C14_REENTRANT_DUP=1): see the check's report",
+                           "message ids that are not int-range integers (strings, fractions, 64-bit values, null) are only required not to throw; which id the callback then sees is not judged"])
